@@ -74,7 +74,14 @@ impl Effect for Distortion {
 					output.right / (1.0 + output.right.abs()),
 				),
 			};
-			output /= drive;
+			if drive != 0.0 {
+				output /= drive;
+			} else {
+				// a drive of -60 dB or less is an amplitude of zero. dividing
+				// by it would produce NaNs; the distortion curves approach
+				// the unmodified signal as the drive approaches zero
+				output = *frame;
+			}
 
 			*frame = output * mix.sqrt() + *frame * (1.0 - mix).sqrt()
 		}
